@@ -155,8 +155,8 @@ def run_property(pid: str, tier: str, seed: int, replay: str | None) -> int:
                           op, expected=mo, observed=impl, kind="correspondence")
 
     # 6. known findings
-    known = lib.load_known()
-    active = {f["key"]: f for f in known.get("findings", []) if f["property"] == pid}
+    known = lib.load_known(pid)
+    active = {f["key"]: f for f in known.get("findings", [])}
     preds = getattr(mod, "KNOWN", {})
     reported = []
     for v in ctx.violations:
